@@ -345,7 +345,8 @@ class Explorer:
         r = self._check(*outside, hard=True)
         ok = True
         if r == z3.sat:
-            m = self._small_model(outside) or self.lm()
+            m = self.lm()            # fetch before any further query invalidates it
+            m = self._small_model(outside) or m
             self.outcomes.append(Outcome("violation", name, self.eval_inputs(m), detail, list(self.trace)))
             ok = False
         elif r == z3.unknown:
